@@ -225,6 +225,13 @@ pub fn cases(parser: &str, quick: bool) -> Vec<(String, Vec<u8>)> {
                     p.extend(&w);
                     p.extend(b"\n  }\n}");
                     v.push(("short-strings-as-value".into(), p));
+                    // the same strings as the name of a host / route / plain section and as an include target
+                    for kw in ["host ", "route ", "", "include "] {
+                        let mut p = format!("server {{\n  {}", kw).into_bytes();
+                        p.extend(&w);
+                        p.extend(if kw == "include " { &b"\n}"[..] } else { &b" {\n  }\n}"[..] });
+                        v.push(("short-strings-as-section-name".into(), p));
+                    }
                 }
             }
             let seeds = [
